@@ -38,7 +38,7 @@ ASSUMPTIONS = [
 ]
 FLOORS = {"schedules": (1500, 40000), "switching_schedules": (1000, 30000), "opcode_schedules": (300, 8000),
           "line_schedules": (300, 8000), "yield_points": (50000, 1000000), "lock_acquisitions": (2000, 50000), "focus_schedules": (1500, 15000)}
-COVER = {"scenarios": ["contexts-shared", "contexts-private", "inherit", "register-overloaded", "register-dataset", "evaluate-cached-unique", "evaluate-cached-equal", "inspect-shared"]}
+COVER = {"scenarios": ["contexts-shared", "contexts-private", "inherit", "register-overloaded", "register-dataset", "evaluate-cached-unique", "evaluate-cached-equal", "inspect-shared", "evaluate-cached-typed"]}
 SHARDS_QUICK = 4
 TIMEOUT_QUICK = 1200
 TIMEOUT_THOROUGH = 3600
@@ -287,28 +287,32 @@ def sc_register(rng, on_dataset=False, n=2):
     return [fn_for(i) for i in range(n)], verify, {"per": per, "dataset": on_dataset}
 
 
-def sc_evaluate(rng, unique=True, n=2):
+def sc_evaluate(rng, unique=True, n=2, typed=None):
     from labrea import cached
 
     small = rng.random() < 0.5
+    # "typed": the threads' dictionaries are == to each other and still different (1 / True / 1.0): each thread's value
+    # shows the type it was computed from
+    typed = (unique and rng.random() < 0.4) if typed is None else typed
     if small:
-        target = cached(Option("A") >> (lambda a: ("inner", a)))
-        expect = lambda o: ("inner", o["A"])  # noqa: E731
+        target = cached(Option("A") >> (lambda a: ("inner", repr(a) if typed else a)))
+        expect = lambda o: ("inner", repr(o["A"]) if typed else o["A"])  # noqa: E731
     else:
         @dataset
         def target(a: int = Option("A"), b: int = Option("B", 0)):
-            return ("inner", a, b)
+            return ("inner", repr(a) if typed else a, b)
 
-        expect = lambda o: ("inner", o["A"], o["B"])  # noqa: E731
+        expect = lambda o: ("inner", repr(o["A"]) if typed else o["A"], o["B"])  # noqa: E731
 
     got = {i: [] for i in range(n)}
     rounds = rng.choice([1, 2])
+    twins = [1, True, 1.0]
 
     def fn_for(i):
         def fn(s, me):
             for r in range(rounds):
-                a = [i, r] if unique else "same"
-                o = {"A": a, "B": r if unique else 0}
+                a = twins[(i + r) % 3] if typed else ([i, r] if unique else "same")
+                o = {"A": a, "B": (0 if typed else r) if unique else 0}
                 s.op(me)
                 got[i].append((o, target.evaluate(o)))
 
@@ -327,7 +331,7 @@ def sc_evaluate(rng, unique=True, n=2):
                     return f"after the concurrent evaluations, evaluating {o} again returns {v!r} instead of {expect(o)!r} (cache entry written under another thread's key)"
         return None
 
-    return [fn_for(i) for i in range(n)], verify, {"unique": unique, "rounds": rounds, "small": small}
+    return [fn_for(i) for i in range(n)], verify, {"unique": unique, "rounds": rounds, "small": small, "typed": typed}
 
 
 def sc_inspect(rng, n=2):
@@ -387,6 +391,7 @@ SCENARIOS = {
     "register-dataset": lambda r: sc_register(r, True, 2),
     "evaluate-cached-unique": lambda r: sc_evaluate(r, True, r.choice([2, 3])),
     "evaluate-cached-equal": lambda r: sc_evaluate(r, False, 2),
+    "evaluate-cached-typed": lambda r: sc_evaluate(r, True, r.choice([2, 3]), typed=True),
 }
 
 
@@ -398,7 +403,7 @@ def cleanup(threads):
 
 FOCUS = {  # focus mode: yield points only in the file that owns the shared state of the scenario
     "inspect-shared": ("conditional.py",),
-    "evaluate-cached-unique": ("cache.py",), "evaluate-cached-equal": ("cache.py",),
+    "evaluate-cached-unique": ("cache.py",), "evaluate-cached-equal": ("cache.py",), "evaluate-cached-typed": ("cache.py",),
     "register-overloaded": ("overload.py",), "register-dataset": ("overload.py", "dataset.py"),
     "contexts-shared": ("runtime.py",), "contexts-private": ("runtime.py",), "inherit": ("runtime.py",),
 }
